@@ -1021,10 +1021,8 @@ impl CurveExt for G2Projective {
     }
 
     fn jacobian_coordinates(&self) -> (Self::Base, Self::Base, Self::Base) {
-        // Homogeneous to Jacobian
-        let x = self.x() * self.z();
-        let y = self.y() * self.z().square();
-        (x, y, self.z())
+        // The underlying representation is already Jacobian.
+        (self.x(), self.y(), self.z())
     }
 
     fn hash_to_curve<'a>(domain_prefix: &'a str) -> Box<dyn Fn(&[u8]) -> Self + 'a> {
@@ -1045,13 +1043,10 @@ impl CurveExt for G2Projective {
     }
 
     fn new_jacobian(x: Self::Base, y: Self::Base, z: Self::Base) -> CtOption<Self> {
-        // Jacobian to homogeneous
-        let z_inv = z.invert().unwrap_or(Fp2::ZERO);
-        let p_x = x * z_inv;
-        let p_y = y * z_inv.square();
+        // The underlying representation is already Jacobian.
         let p = G2Projective::from_raw_unchecked(
-            p_x,
-            Fp2::conditional_select(&p_y, &Fp2::ONE, z.is_zero()),
+            x,
+            Fp2::conditional_select(&y, &Fp2::ONE, z.is_zero()),
             z,
         );
         CtOption::new(p, p.is_on_curve())
